@@ -228,4 +228,15 @@ theorem one_live_container_per_operator_on_every_tick_of_every_overbook_run (cfg
   obtain ⟨w', st', res', h, inv⟩ := Overbook.run_never_raises arrivals _ {} [] (Overbook.fresh_inv cfg store pipes caps ho hc wf hs)
   exact ⟨w', st', res', h, ready_world_one_live_container_per_operator inv.ready⟩
 
+/-- **`priority` with single-operator containers** -/
+theorem one_live_container_per_operator_on_every_tick_of_every_priority_single_operator_run (cfg : Cfg) (store : Store) (pipes : Array PipeInfo)
+    (caps : List (Nat × Nat)) (arrivals : List (List Nat)) (hm : cfg.multiOp = false) (ho : cfg.overcommit = false) (hq : 0 < cfg.q)
+    (wf : (freshWorld cfg store pipes caps).WFP) (hs : (freshWorld cfg store pipes caps).SegsOK) (hp : (freshWorld cfg store pipes caps).PidOK)
+    (hn : ∀ newP ∈ arrivals, newP.Nodup) :
+    ∃ w' st' res', Prio.loop (freshWorld cfg store pipes caps) {} [] arrivals = .ok (w', st', res') ∧ (w'.pools.flatMap ownP).Nodup ∧
+      ∀ p ∈ w'.pools, ∀ c ∈ p.active ++ p.suspending, c.completed = false ∧
+        ∀ o ∈ c.unfinished, w'.store.stOf o = OpState.assigned ∨ w'.store.stOf o = OpState.running ∨ w'.store.stOf o = OpState.suspending := by
+  obtain ⟨w', st', res', h, inv⟩ := Prio.run_single_never_raises arrivals _ {} [] hn (Prio.fresh_inv_single cfg store pipes caps hm ho hq wf hs hp)
+  exact ⟨w', st', res', h, ready_world_one_live_container_per_operator inv.ready⟩
+
 end Eudoxia.C02
